@@ -1312,7 +1312,8 @@ class Evaluator:
                 self.write(st2, lb, va, n, 'swap')
                 yield st2, ('void',)
             return
-        if name in ('duration_cast', 'time_point_cast') and len(args) == 1:
+        if name in ('duration_cast', 'time_point_cast', 'ceil', 'floor', 'round') and len(args) == 1 \
+                and 'chrono' in ((n['inner'][1].get('type', {}).get('desugaredQualType') or qt(args[0]) or '')):
             # exact (hence the identity on the represented time) when the target period divides the source period
             def period(tq):
                 m = re.search(r'duration<[^,<>]*(?:<[^<>]*>)?[^,<>]*,\s*std::ratio<\s*(\d+)\s*(?:,\s*(\d+)\s*)?>', tq or '')
@@ -1641,6 +1642,10 @@ class Evaluator:
             return
         for st2, recv in self.eval(base, st):
             if tc == 'lockguard':
+                if name == 'try_lock':
+                    # an acquisition that may fail: whether the code behind it runs locked depends on how the result is used
+                    yield st2, self.unknown(st2, 'try_lock (an acquisition that may fail is not modelled)', n)
+                    continue
                 if name in ('lock', 'unlock', 'try_lock'):
                     st2.ev('lock' if name != 'unlock' else 'unlock', self.guard_mutex(st2, recv), site_of(n, st2), 'guard.' + name)
                     self.set_guard(st2, recv, name != 'unlock')
@@ -1649,6 +1654,9 @@ class Evaluator:
                     yield st2, self.unknown(st2, 'lockguard.%s' % name, n)
                 continue
             if tc == 'mutex' or (tc == 'other' and name in ('lock', 'unlock', 'try_lock') and 'mutex' in qt(base)):
+                if name == 'try_lock':
+                    yield st2, self.unknown(st2, 'try_lock (an acquisition that may fail is not modelled)', n)
+                    continue
                 if name in ('lock', 'try_lock'):
                     st2.ev('lock', recv, site_of(n, st2), 'manual')
                     st2.guards.append((-1, ('manual', recv), recv, True))
